@@ -456,6 +456,14 @@ var c01StmtAlphabet = []string{
 	// errors raised while building a literal or an argument list abort the statement
 	"w = {\"a\": 1 / 0}; println(\"after\", w)", "w = {1 / 0: 1}; println(\"after\", w)", "w = [v, 1 / 0]; println(\"after\", w)", "w = h(v, 1 / 0); println(\"after\", w)",
 	"w = {\"a\": {\"b\": [error(\"deep\")]}}; println(\"after\", w)", "w = len([1 % 0]); println(\"after\")", "w = {}; w[1 / 0] = 5; println(\"after\", w)", "w = [1]; w[0] = 1 / 0; println(\"after\", w)", "w = [1, 2][1 / 0:]; println(\"after\")",
+	// side effects between the operands of one construct inside a function, on a variable of an outer scope: left to right
+	"w = 1; func bump() { w = w + 10; 0 }; func t1() { [w, bump(), w] }; println(t1(), w)", "w = 1; func bump() { w = w + 10; 0 }; func g2(x, y) { [x, y] }; func t2() { g2(w, bump()) }; println(t2())",
+	"w = 1; func bump() { w = w + 10; 0 }; func t3() { {w: bump(), \"k\": w} }; println(t3())", "w = 1; func bump() { w = w + 10; 0 }; func t4() { w + bump() + w }; println(t4())",
+	"w = 3; func fr() { t = 0; for i = 1:w { t = t + i }; t }; println(fr())", "w = 2; func fr2() { for i = w:v + 2 { println(i) } }; fr2()",
+	// closures made by one factory: each has its own captured variables, also when they call each other
+	"func mk(q) { (o) => { if o == nil { q } else { o(nil) } } }; ca = mk(1); cb = mk(2); println(ca(cb), cb(ca), ca(ca))",
+	"func counter(s) { c = s; () => { c = c + 1; c } }; ct = [counter(0), counter(0)]; println([ct[0](), ct[0](), ct[1]()])",
+	"func counter(s) { c = s; [() => { c = c + 1; c }] }; c1 = counter(v); c2 = counter(v); println(c1[0](), c1[0](), c2[0]())",
 	// the error that comes out is the one that was raised (its message observed through catch)
 	"println(catch([1, 2][error(\"e1\"):]).value)", "println(catch([1, 2][0:error(\"e2\")]).value)", "println(catch(if error(\"e3\") { 1 }).value)", "println(catch([1, 2][error(\"e4\")]).value)",
 	"println(catch({1: 2}[error(\"e5\")]).value)", "println(catch(-error(\"e6\")).value)", "println(catch(for error(\"e7\") { 1 }).value)", "println(catch(h(error(\"e8\"), 1)).value)", "println(catch(len(error(\"e9\"))).value)",
